@@ -219,12 +219,14 @@ func (fs *FileSystemDataStore) TombstoneFile(ctx context.Context, filePointerByt
 			errs = append(errs, err)
 		}
 	}
-	if removed {
-		// Make the removal durable: a tombstoned file that a power loss
-		// brings back would be picked up by directory scans again.
-		if err := syncDir(filepath.Dir(finalPath)); err != nil {
-			errs = append(errs, err)
-		}
+	// Make the removal durable: a tombstoned file that a power loss brings
+	// back would be picked up by directory scans again. The directory is
+	// synced even when nothing was left to remove: an earlier removal of this
+	// pointer (Update, a previous TombstoneFile) whose own directory fsync
+	// failed is not durable yet, and this is the call that can still make it
+	// so or report that it is not.
+	if err := syncDir(filepath.Dir(finalPath)); err != nil && (removed || !os.IsNotExist(err)) {
+		errs = append(errs, err)
 	}
 	return errors.Join(errs...)
 }
